@@ -296,10 +296,10 @@ def run(ctx, drv):
     if not quick:
         ex += [("pool-random", [[3], [5]]), ("pool-fifo", [[3, 5], [5]]), ("pool-lifo", [[3], [4], [5]])]
     for mode, programs in ex:
-        runs, complete = explore_all(ctx, drv, mode, programs, 400 if quick else 8000, "exhaustive")
+        runs, complete = explore_all(ctx, drv, mode, programs, 400 if quick else 3200, "exhaustive")
         notes.append({"mode": mode, "programs": programs, "interleavings": runs, "complete": complete})
     ctx.notes["pool_exhaustive_interleavings"] = notes
-    for _ in range(120 if quick else 2500):
+    for _ in range(120 if quick else 2000):
         if ctx.time_left() < 50:
             break
         mode = rng.choice(MODES)
